@@ -190,6 +190,28 @@ def build_scores(spec, L=None):
     if spec.get("readonly"):
         pos.flags.writeable = False
         neg.flags.writeable = False
+    if spec.get("via") == "from_labels" and not is_sorted:
+        # alternative constructor: one label array and one score array, rows interleaved deterministically
+        plab = spec.get("pos_label", 1)
+        nlab = {1: 0, "p": "n", True: False, 2: 3}.get(plab, 0)
+        scores = np.concatenate([pos, neg])
+        labels = np.asarray([plab] * len(pos) + [nlab] * len(neg), dtype=object if isinstance(plab, str) else None)
+        if isinstance(plab, str):
+            labels = labels.astype(str)
+        perm = np.argsort((np.arange(len(scores)) * 7919) % max(len(scores), 1), kind="stable")
+        scores, labels = scores[perm], labels[perm]
+        if spec.get("readonly"):
+            scores.flags.writeable = False
+            labels.flags.writeable = False
+        callers = _callers({"scores": scores, "labels": labels})
+        o = L.Scores.from_labels(
+            labels, scores, pos_label=plab,
+            nb_easy_pos=int(spec.get("nb_easy_pos", 0)), nb_easy_neg=int(spec.get("nb_easy_neg", 0)),
+            score_class=spec.get("score_class", "pos"), equal_class=spec.get("equal_class", "pos"),
+        )
+        for _ in range(int(spec.get("swaps", 0))):
+            o = o.swap()
+        return o, callers
     callers = _callers({"pos": pos, "neg": neg})
     o = L.Scores(
         pos, neg,
